@@ -1,6 +1,7 @@
 import PlinioVerif.Lemmas.CostNum
 import PlinioVerif.Model.RegSpecs
 import PlinioVerif.Gen.Reg
+import PlinioVerif.Model.RegInstance
 import Mathlib.Algebra.BigOperators.Group.List.Basic
 import Mathlib.Algebra.Order.BigOperators.Group.List
 /-!
@@ -160,3 +161,26 @@ theorem derived_of_below {loss c0 t : ℚ} (hl : 0 ≤ loss) (h : c0 ≤ t) : de
   rw [derived_eq_max]; exact max_eq_left (div_nonpos_of_nonneg_of_nonpos hl (by linarith))
 
 end PlinioVerif.RegSpec
+
+namespace PlinioVerif.RegInst
+
+theorem call_targets (i : Instance) (c : Call) : (i.call c).1.targets = i.targets := rfl
+theorem call_strengths (i : Instance) (c : Call) :
+    (i.call c).1.finalStrengths = some (i.strengthsFor c.costs) := rfl
+
+/-- once the strengths are stored, every call is a function of its own arguments -/
+theorem run_of_some (i : Instance) (ss : List ℚ) (h : i.finalStrengths = some ss) (cs : List Call) :
+    i.run cs = cs.map (i.value ss) := by
+  induction cs generalizing i with
+  | nil => rfl
+  | cons c cs ih =>
+    have hs : i.strengthsFor c.costs = ss := by unfold Instance.strengthsFor; rw [h]
+    have h' : (i.call c).1.finalStrengths = some ss := by rw [call_strengths, hs]
+    simp only [Instance.run, List.map_cons]
+    rw [ih (i.call c).1 h']
+    have hv : (i.call c).2 = i.value ss c := by unfold Instance.call; simp only [hs]
+    rw [hv]
+    congr 1
+
+end PlinioVerif.RegInst
+
